@@ -324,6 +324,38 @@ class Loader(yaml.SafeLoader):
         self.yaml_implicit_resolvers = new_implicit_resolvers
 
 
+def _checked_scalar_constructor(tag: str) -> Callable[[Any, yaml.Node], Any]:
+    """Wraps a PyYAML scalar constructor to report invalid values.
+
+    PyYAML's constructors for int, float, bool and timestamp raise
+    assorted built-in exceptions if the scalar is tagged (explicitly,
+    or by a too-liberal implicit resolver pattern) as something it
+    cannot be parsed as, e.g. ``!!int abc``, ``0x_`` or ``2001-13-45``.
+
+    Args:
+        tag: The YAML tag to create a constructor for.
+
+    Returns:
+        A constructor that raises RecognitionError in those cases.
+    """
+    pyyaml_constructor = yaml.SafeLoader.yaml_constructors[tag]
+
+    def construct(loader: Any, node: yaml.Node) -> Any:
+        try:
+            return pyyaml_constructor(loader, node)
+        except (ValueError, KeyError, AttributeError, IndexError):
+            raise RecognitionError('{}\nInvalid value for {}'.format(
+                node.start_mark, tag.split(':')[-1]))
+
+    return construct
+
+
+for _tag in ('int', 'float', 'bool', 'timestamp'):
+    Loader.add_constructor(
+            'tag:yaml.org,2002:{}'.format(_tag),
+            _checked_scalar_constructor('tag:yaml.org,2002:{}'.format(_tag)))
+
+
 def set_document_type(loader_cls: Type, type_: Type) -> None:
     """Set the type corresponding to the whole document.
 
